@@ -406,7 +406,6 @@ func ruleEDecodeAdvance(p *Program, r *Reporter) {
 	}
 }
 
-
 // sameStringCountAndLen: one side is utf8.RuneCountInString(s) and the other len(s) of the same string s; returns s.
 func sameStringCountAndLen(x, y ssa.Value) ssa.Value {
 	count := func(v ssa.Value) ssa.Value {
